@@ -76,6 +76,23 @@ func pickR(rc string, rng *rand.Rand, wantHigh bool) (rPick, error) {
 	case "mid":
 		p := rndPointX(rng, wantHigh, nil)
 		return rPick{V: p.X, v0: p.X, R: p, hasR: true}, nil
+	case "wrap":
+		// r = k with n + k < p the abscissa of the nonce point: small k, or anywhere below p - n
+		lim := sub(ref.P, ref.N)
+		for {
+			var k *big.Int
+			if rng.Intn(2) == 0 {
+				k = bi(1 + rng.Int63n(4096))
+			} else {
+				k = rndBelow(rng, lim)
+			}
+			if k.Sign() == 0 {
+				continue
+			}
+			if pt, ok := liftAny(add(ref.N, k), rng); ok {
+				return rPick{V: k, v0: k, R: pt, hasR: true}, nil
+			}
+		}
 	case "b33":
 		p := rndPointX(rng, false, slackN)
 		V := add(p.X, ref.N)
@@ -419,6 +436,25 @@ func replayRow(out *vio.Out, sum *Summary, r *Row, line []byte, rng *rand.Rand, 
 	}
 }
 
+// refusedClass names a wrongly refused row by its first non-generic class (r, then s, then key form, then encoding),
+// so that one defect gives one signature and not one per combination.
+func refusedClass(r *Row) string {
+	if r.Tab != "ecdsa" {
+		return strings.Join([]string{r.Pk, r.Rc, r.Sc, r.Der, r.X1, r.X2}, ":")
+	}
+	switch {
+	case r.Rc != "mid":
+		return "r-" + r.Rc
+	case r.Sc != "mid":
+		return "s-" + r.Sc
+	case r.Pk != "comp_even" && r.Pk != "comp_odd" && r.Pk != "uncomp":
+		return "pk-" + r.Pk
+	case r.Der != "strict":
+		return "der-" + r.Der
+	}
+	return "generic"
+}
+
 // judge compares the code's answer with the row's verdict; returns the number of failures reported.
 func judge(out *vio.Out, sum *Summary, r *Row, api string, got bool, panicked string, line []byte, inst int, bts map[string]string) {
 	sum.count(0, 1, 0)
@@ -429,7 +465,7 @@ func judge(out *vio.Out, sum *Summary, r *Row, api string, got bool, panicked st
 	switch r.V {
 	case "accept":
 		if !got {
-			report(out, sum, "C03:"+r.Tab+":refused:"+strings.Join([]string{r.Pk, r.Rc, r.Sc, r.Der, r.X1, r.X2}, ":"),
+			report(out, sum, "C03:"+r.Tab+":refused:"+refusedClass(r),
 				fmt.Sprintf("%s refuses a valid input of class %s", api, rowKey(r)), line, inst, bts, r.Rules)
 		}
 	case "reject":
@@ -440,6 +476,21 @@ func judge(out *vio.Out, sum *Summary, r *Row, api string, got bool, panicked st
 	case "either":
 		sum.inc(sum.Either, fmt.Sprintf("%s:%v", r.Der, got))
 	}
+}
+
+// rndMsg: a 32-byte digest; mostly generic, sometimes 0 or a value >= n (the verifier reduces it modulo n)
+func rndMsg(rng *rand.Rand) []byte {
+	switch rng.Intn(10) {
+	case 0:
+		return make([]byte, 32)
+	case 1:
+		return ref.B32(ref.N)
+	case 2:
+		return ref.B32(max256)
+	case 3:
+		return ref.B32(add(ref.N, rndBelow(rng, slackN)))
+	}
+	return rnd32(rng)
 }
 
 func rowEcdsa(out *vio.Out, sum *Summary, r *Row, line []byte, rng *rand.Rand, inst int) error {
@@ -492,7 +543,7 @@ func rowEcdsa(out *vio.Out, sum *Summary, r *Row, line []byte, rng *rand.Rand, i
 				return err
 			}
 			vr = rp.V
-			msg = rnd32(rng)
+			msg = rndMsg(rng)
 			if r.Eq {
 				if !rp.hasR || s0.Sign() == 0 {
 					return fmt.Errorf("row asks for a valid equation with r class %s / s class %s", r.Rc, r.Sc)
@@ -545,11 +596,16 @@ func rowEcdsa(out *vio.Out, sum *Summary, r *Row, line []byte, rng *rand.Rand, i
 	if rv != r.V && !trustSpec {
 		return fmt.Errorf("specification says %s, reference says %s (%s) for pk=%x sig=%x msg=%x", r.V, rv, why, pk, sig, msg)
 	}
-	var got bool
+	var got, got2 bool
 	p := safely(func() { got = btc.EcdsaVerify(pk, sig, msg) })
 	bts := map[string]string{"pubkey": hx(pk), "sig": hx(sig), "msg": hx(msg), "r": vr.Text(16), "s": vs.Text(16)}
 	sum.count(1, 0, 0)
 	judge(out, sum, r, "btc.EcdsaVerify", got, p, line, inst, bts)
+	// the library entry point below it (ParsePubkey + Signature.ParseBytes + Signature.Verify)
+	p2 := safely(func() { got2 = secp256k1.Verify(pk, sig, msg) })
+	if p == "" && (p2 != "" || got2 != got) {
+		judge(out, sum, r, "secp256k1.Verify", got2, p2, line, inst, bts)
+	}
 	if inst == 0 && r.Eq && len(r.Rules) == 1 {
 		sum.sample(map[string]interface{}{"row": rowKey(r), "verdict": r.V, "pubkey": hx(pk), "sig": hx(sig), "msg": hx(msg), "code": got})
 	}
